@@ -2,10 +2,12 @@ import AsynqModel.Sexp
 import AsynqModel.Lib.Threads
 /-! driver glue for mode `threads` (property C16)
 
-  (case threads <id> inv 0 0 0)            followed by (inv <module> <name> <kind>) lines
+  (case threads <id> inv 0 0 0)            followed by (inv <module> <name> <kind>) lines (the AST inventory) and
+                                           (probe <module> <name>) lines (the carriers the run-time probes exercise)
   (case threads <id> hist|prog <K> <perf> <reps>)
      (a <t> <op> <obs>)       records of thread t running alone, in order
      (c <r> <t> <op> <obs>)   records of concurrent repetition r, in global order (= the schedule)
+  A record that mentions the token 999999 (the harness met an object the thread did not create) has observation `foreign`.
 -/
 namespace AsynqModel.Drv.Threads
 open AsynqModel AsynqModel.Threads
@@ -35,6 +37,11 @@ def op? : Sexp → Option Op
   | .list [.atom "amExit"] => some .amExit
   | .list [.atom "amGet"] => some .amGet
   | .list [.atom "note", a, b] => do some (.note (← a.nat?) (← b.nat?))
+  | .list [.atom "svGet"] => some .svGet
+  | .list [.atom "svSet", n] => n.nat?.map .svSet
+  | .list [.atom "svEnter", n] => n.nat?.map .svEnter
+  | .list [.atom "svExit"] => some .svExit
+  | .list [.atom "lruCall", n] => n.nat?.map .lruCall
   | _ => none
 
 def optNat? : Sexp → Option (Option Nat)
@@ -47,8 +54,23 @@ def stat? : Sexp → Stat
   | .list [.atom "user", n] => match n.nat? with | some n => .user n | none => .other
   | _ => .other
 
+/-- the atoms of a record component (operations and observations nest at most three levels; deeper = foreign) -/
+def atomsOf : Sexp → List String
+  | .atom a => [a]
+  | .list l => l.flatMap fun
+    | .atom a => [a]
+    | .list l2 => l2.flatMap fun
+      | .atom a => [a]
+      | .list l3 => l3.flatMap fun
+        | .atom a => [a]
+        | .list _ => ["999999"]
+
+/-- the harness writes 999999 for an object (task, batch, item, scheduler number) that the thread did not create -/
+def mentionsForeign (s : Sexp) : Bool := (atomsOf s).contains "999999"
+
 /-- every observation parses: what the model never produces becomes `.other` -/
 def obs (s : Sexp) : Obs :=
+  if mentionsForeign s then .foreign else
   let r : Option Obs := match s with
     | .list [.atom "unit"] => some .unit
     | .list [.atom "nat", n] => n.nat?.map .nat
@@ -63,6 +85,7 @@ def obs (s : Sexp) : Obs :=
     | .list [.atom "stats", .list l] => some (.stats (l.map stat?))
     | .list [.atom "dedup", a, b, c] => do some (.dedup (← a.nat?) (← b.nat?) (← c.nat?))
     | .list [.atom "bool", b] => b.bool?.map .bool
+    | .list [.atom "cache", h, v] => do some (.cache (← h.bool?) (← v.nat?))
     | .list [.atom "raised", n] => n.nat?.map .raised
     | _ => none
   r.getD .other
@@ -71,6 +94,7 @@ structure Parsed where
   aloneRecs : Array (List Rec)              -- reversed while parsing
   conc : Array (List (ThreadId × Rec))      -- per repetition, reversed while parsing
   inv : List (String × String × String)
+  probed : List (String × String)
   bad : Nat
 
 def pushAt {α : Type} (a : Array (List α)) (i : Nat) (x : α) : Array (List α) :=
@@ -78,18 +102,19 @@ def pushAt {α : Type} (a : Array (List α)) (i : Nat) (x : α) : Array (List α
   a.modify i (x :: ·)
 
 def parseBody (k reps : Nat) (body : List Sexp) : Parsed :=
-  let p0 : Parsed := { aloneRecs := Array.replicate k [], conc := Array.replicate reps [], inv := [], bad := 0 }
+  let p0 : Parsed := { aloneRecs := Array.replicate k [], conc := Array.replicate reps [], inv := [], probed := [], bad := 0 }
   let p := body.foldl (fun p s =>
     match s with
-    | .list [.atom "a", t, o, ob] =>
-      match t.nat?, op? o with
-      | some t, some o => { p with aloneRecs := pushAt p.aloneRecs t (o, obs ob) }
+    | .list [.atom "a", t, op, ob] =>
+      match t.nat?, op? op with
+      | some t, some o => { p with aloneRecs := pushAt p.aloneRecs t (o, if mentionsForeign op then .foreign else obs ob) }
       | _, _ => { p with bad := p.bad + 1 }
-    | .list [.atom "c", r, t, o, ob] =>
-      match r.nat?, t.nat?, op? o with
-      | some r, some t, some o => { p with conc := pushAt p.conc r (t, (o, obs ob)) }
+    | .list [.atom "c", r, t, op, ob] =>
+      match r.nat?, t.nat?, op? op with
+      | some r, some t, some o => { p with conc := pushAt p.conc r (t, (o, if mentionsForeign op then .foreign else obs ob)) }
       | _, _, _ => { p with bad := p.bad + 1 }
     | .list [.atom "inv", .atom m, .atom n, .atom kd] => { p with inv := (m, n, kd) :: p.inv }
+    | .list [.atom "probe", .atom m, .atom n] => { p with probed := (m, n) :: p.probed }
     | _ => { p with bad := p.bad + 1 }) p0
   { p with aloneRecs := p.aloneRecs.map List.reverse, conc := p.conc.map List.reverse, inv := p.inv.reverse }
 
@@ -114,21 +139,25 @@ def diffGlobal (m i : List (ThreadId × Rec)) (n : Nat := 0) : Option String :=
 def firstSome {α : Type} (l : List (Option α)) : Option α := l.findSome? id
 
 def describeSpec (k : Nat) (aloneRecs : List (List Rec)) (conc : List (ThreadId × Rec)) : String :=
+  match conc.find? fun p => p.2.2 == Obs.foreign with
+  | some (t, r) => s!"thread {t} concurrent [{repr r.1}] mentions an object of another thread"
+  | none =>
   match specFind aloneRecs conc k with
   | none => ""
   | some (t, i, _) =>
-    let a := (aloneRecs.getD t [])[i]?
-    let c := (proj t conc)[i]?
+    let a := (ownPrefix (aloneRecs.getD t []))[i]?
+    let c := (ownPrefix (proj t conc))[i]?
     let sh (x : Option Rec) := match x with | some r => recStr r | none => "<end>"
     s!"thread {t} record {i}: alone [{sh a}] concurrent [{sh c}]"
 
 def handleInv (id : Nat) (p : Parsed) : String :=
-  let probs := inventoryProblems p.inv
+  let probs := inventoryProblems p.inv p.probed
   let txt := probs.map fun (missing, m, n, kd) =>
-    if missing then s!"component-not-thread-local:{m}.{n}(expected {kd})" else s!"unlisted-shared-state:{m}.{n}({kd})"
+    if missing && kd == "probed" then s!"component-without-probe:{m}.{n}"
+    else if missing then s!"component-not-thread-local:{m}.{n}(expected {kd})" else s!"unlisted-shared-state:{m}.{n}({kd})"
   let c := if probs.isEmpty && p.bad == 0 then "ok" else "diff"
   let known := p.inv.filter fun e => !(components.contains e)
-  let d := if probs.isEmpty then s!"inventory {p.inv.length} entries, {components.length} per-thread components, {known.length} process-wide/constant"
+  let d := if probs.isEmpty then s!"inventory {p.inv.length} entries, {components.length} thread-indexed components (all probed), {known.length} process-wide / shared-by-design / constant"
            else "inventory: " ++ " ".intercalate txt
   s!"R {id} CORR={c} SPEC=ok SPECM=ok | {d}"
 
@@ -144,7 +173,7 @@ def handle (id : Nat) (hdr : List Sexp) (body : List Sexp) : String :=
       -- correspondence: the model on the same operations makes the same observations
       let corrAlone := firstSome ((List.range aloneImpl.length).map fun t =>
         let impl := aloneImpl.getD t []
-        (diffRecs (alone perf (impl.map (·.1))) impl).map fun s => s!"alone thread {t} {s}")
+        (diffRecs (aloneOn perf t (impl.map (·.1))) impl).map fun s => s!"alone thread {t} {s}")
       let corrConc := firstSome ((List.range concs.length).map fun r =>
         let impl := concs.getD r []
         (diffGlobal (inter perf (impl.map fun x => (x.1, x.2.1))) impl).map fun s => s!"concurrent run {r} {s}")
@@ -158,7 +187,7 @@ def handle (id : Nat) (hdr : List Sexp) (body : List Sexp) : String :=
       -- the property on the model's records (what the theorem says)
       let specms := concs.map fun c =>
         let sch := c.map fun x => (x.1, x.2.1)
-        specClause k ((List.range k).map fun t => alone perf (opsOf t sch)) (inter perf sch)
+        specClause k ((List.range k).map fun t => proj t (inter perf (only t sch))) (inter perf sch)
       let specm := (specms.find? (· != "ok")).getD "ok"
       let c := match corr with | none => "ok" | some _ => "diff"
       let f (s : String) := if s == "ok" then "ok" else "fail:" ++ s
